@@ -24,6 +24,8 @@ RULE = (
     'scenario activity is activated at a time > T. non-trivial = a judged block that was ended '
     'by its notification; distinct = activation trace'
 )
+RULE = RULE + (' Further scenarios: conditions (8 shapes) that served an earlier simulation, date conditions across an aborted simulation, blocks whose body uses its own notification object again (6 uses).')
+
 LEVEL_TEXT = (
     'Exploration by runtime monitoring with a reference model: the virtual time at which the '
     'real code leaves each until-block is compared with min(model trigger time, measured '
